@@ -13,6 +13,7 @@ import (
 	"strconv"
 	"strings"
 	"sync"
+	"time"
 
 	"github.com/blevesearch/bleve/v2/index/scorch"
 	"github.com/blevesearch/bleve/v2/index/scorch/mergeplan"
@@ -31,6 +32,7 @@ type Recorder struct {
 	events []Event
 	file   *os.File // when set, every event is appended with one write(2) (survives SIGKILL)
 	hits   int
+	counts map[string]int
 
 	// Gate, when set, is called (outside the recorder lock) for every hook
 	// point BEFORE the event is recorded; it may block or kill the process.
@@ -62,6 +64,10 @@ func (r *Recorder) Emit(name string, kv map[string]any) Event {
 	r.mu.Lock()
 	r.seq++
 	ev["seq"] = r.seq
+	if r.counts == nil {
+		r.counts = map[string]int{}
+	}
+	r.counts[name]++
 	r.events = append(r.events, ev)
 	if r.file != nil {
 		b, _ := json.Marshal(ev)
@@ -75,6 +81,39 @@ func (r *Recorder) Events() []Event {
 	r.mu.Lock()
 	defer r.mu.Unlock()
 	return append([]Event(nil), r.events...)
+}
+
+// Count returns how many events of that name were recorded so far.
+func (r *Recorder) Count(name string) int {
+	r.mu.Lock()
+	defer r.mu.Unlock()
+	return r.counts[name]
+}
+
+// WaitEvent blocks until n more events named name have been recorded, or the
+// timeout expires (returns false).
+func (r *Recorder) WaitEvent(name string, n int, timeout time.Duration) bool {
+	target := r.Count(name) + n
+	deadline := time.Now().Add(timeout)
+	for time.Now().Before(deadline) {
+		if r.Count(name) >= target {
+			return true
+		}
+		time.Sleep(100 * time.Microsecond)
+	}
+	return false
+}
+
+// WaitCount blocks until at least target events named name were recorded.
+func (r *Recorder) WaitCount(name string, target int, timeout time.Duration) bool {
+	deadline := time.Now().Add(timeout)
+	for time.Now().Before(deadline) {
+		if r.Count(name) >= target {
+			return true
+		}
+		time.Sleep(100 * time.Microsecond)
+	}
+	return false
 }
 
 func (r *Recorder) Hits() int { r.mu.Lock(); defer r.mu.Unlock(); return r.hits }
@@ -196,15 +235,9 @@ func (r *Recorder) eventFor(point string, s *scorch.Scorch, args []interface{}) 
 	case "copy.close":
 		return "CopyClose", map[string]any{"snap": snapJSON(arg(0).(scorch.VerifSnap))}
 	case "copy.file":
-		if len(args) > 1 && args[1] == true {
-			return "CopyFile", map[string]any{"file": filepath.Base(fmt.Sprint(args[0]))}
-		}
-		return "", nil
-	case "persist.file":
-		if len(args) > 1 && args[1] == true {
-			return "CopyPersistFile", map[string]any{"file": filepath.Base(fmt.Sprint(args[0]))}
-		}
-		return "", nil
+		return "CopyFile", map[string]any{"file": filepath.Base(fmt.Sprint(args[0]))}
+	case "copy.memfile":
+		return "CopyMemFile", map[string]any{"file": filepath.Base(fmt.Sprint(args[0]))}
 	case "close.begin":
 		return "CloseBegin", kv
 	case "close.waited":
@@ -256,6 +289,17 @@ func BatchOf(internal map[string]string) int {
 func (r *Recorder) Hook(point string, s *scorch.Scorch, args ...interface{}) {
 	if r.Path != "" && (s == nil || s.VerifPath() != r.Path) {
 		return
+	}
+	// prepareBoltSnapshot serves both the persister (d == nil) and CopyTo (d != nil):
+	// give the two uses distinct point names
+	if (point == "copy.file" || point == "persist.file") && len(args) > 1 {
+		toDir, _ := args[1].(bool)
+		switch {
+		case point == "copy.file" && !toDir:
+			point = "persist.keepfile"
+		case point == "persist.file" && toDir:
+			point = "copy.memfile"
+		}
 	}
 	r.mu.Lock()
 	r.hits++
